@@ -9,7 +9,10 @@ for d in sorted(glob.glob(os.path.join(HOME, 'seeded', '*'))):
     what = re.sub(r'\s+', ' ', (m.get('breaks') or ''))[:230]
     needs = re.sub(r'\s+', ' ', (m.get('needs_to_manifest') or ''))[:200]
     sigs = ', '.join(f'`{s}`' for s in (det.get('signatures') or [])[:2])
-    rows.append(f"| {os.path.basename(d)} | {what} | {needs} | {'yes' if det.get('detected') else 'NO'}: {sigs} |")
+    owner = os.path.basename(d).split('-')[0]
+    m_ = re.search(r'check (C\d\d)', det.get('check') or '')
+    by = f" (by the {m_.group(1)} check)" if m_ and m_.group(1) != owner else ''
+    rows.append(f"| {os.path.basename(d)} | {what} | {needs} | {'yes' if det.get('detected') else 'NO'}{by}: {sigs} |")
 tab = ("## Appendix B — seeded changes and which check catches them\n\n"
        "Each change was written by a fresh sub-agent that saw only the property text and a scratch worktree; each was confirmed here in a scratch copy "
        "(`tools/confirm_seed.sh`: its demonstration exits 0 before and 1 after `patch -p1`, and the 438 pinned tests pass with it) and then run "
